@@ -183,6 +183,50 @@ func propC03(r *Run) {
 			r.Nontrivial("invalid-file|" + bad)
 			w.confinement()
 		}
+		// a record that is a symbolic link to a hash file outside the base directory (shared
+		// between two stores, or put elsewhere by the operator): reading through it is the
+		// operator's choice, but nothing the store does may *modify* anything out there
+		if r.Choose("linked-record", 3) == 0 {
+			out := "/srv/elsewhere"
+			w.fs.PutDir(out, 0o700)
+			target := out + "/shared.user"
+			orig := RefWrite(def, "linked-pw", make([]byte, def.SaltLen()), 1000) + "\ntotp: keep-me\n"
+			w.fs.Put(target, []byte(orig), 0o600)
+			w.fs.PutSymlink(target, w.base()+"/linked.user")
+			w.arm()
+			for i, n := 0, 2+r.Choose("linked-ops", 3); i < n; i++ {
+				pos := len(w.fs.Log)
+				var err error
+				what := ""
+				switch r.Choose("linked-op", 4) {
+				case 0:
+					what = "update(linked)"
+					w.guard("update", func() { err = d.UpdateUser("linked", fmt.Sprintf("linked-pw-%d", i)) })
+				case 1:
+					what = "set-admin(linked)"
+					w.guard("set-admin", func() { err = d.SetAdmin("linked", i%2 == 0) })
+				case 2:
+					what = "authenticate(linked)"
+					w.guard("authenticate", func() { d.Authenticate("linked", "linked-pw") }) //nolint
+				case 3:
+					what = "remove(linked)"
+					w.guard("remove", func() { d.RemoveUser("linked") })
+				}
+				for _, rec := range w.fs.Log[pos:] {
+					for _, p := range []string{rec.Real, rec.Path2} {
+						if rec.Mut && rec.Kind != "symlink" && p != "" && p != w.base() && !strings.HasPrefix(p, w.base()+"/") {
+							r.Fail("confinement/through-linked-record", "%s (err=%v) on a record that is a symlink to %s: %s modified %q outside the base directory", what, err, target, rec.Kind, p)
+						}
+					}
+				}
+				if b, ok := w.fs.Get(target); !ok || string(b) != orig {
+					r.Fail("confinement/through-linked-record", "%s (err=%v): the hash file outside the base directory was changed or removed (now %s)", what, err, simrt.Q(string(b)))
+				}
+				w.logPos = len(w.fs.Log)
+				r.Nontrivial("linked|" + what)
+			}
+			r.Count("probe:records-linked-to-outside-files")
+		}
 		r.Steps += n
 		r.Sample(map[string]any{"config": cfg.Desc(), "users": users, "calls": tried})
 	})
@@ -236,7 +280,7 @@ func propC16(r *Run) {
 		w := newWorld(r, rr, cfg, 1)
 		d := w.dirs[0]
 		def := w.sets[cfg.Default]
-		names := []string{"alice", "bob", "a.user", "x.admin", "0", "d@example.org"}
+		names := []string{"alice", "bob", "a.user", "x.admin", "0", "d@example.org", "bob.smith", "alice.b.c", "a"}
 		mode := r.Choose("mode", 3)
 		switch mode {
 		case 0, 1: // generated directory vs reference predicate
